@@ -123,6 +123,31 @@ fn meta_describes(meta_dir: &Path, cs: bool) -> Value {
     json!(problems)
 }
 
+/// the written directory as it is: every file with length, SHA-256 and the version inside, and the
+/// entries of the written snapshot and timestamp (compared with `Tough/Model/Publish.lean` by the driver)
+fn listing(meta_dir: &Path, cs: bool) -> Value {
+    let mut files = serde_json::Map::new();
+    if let Ok(rd) = std::fs::read_dir(meta_dir) {
+        for e in rd.flatten() {
+            let name = e.file_name().to_string_lossy().to_string();
+            if let Ok(b) = std::fs::read(e.path()) {
+                let doc: Value = serde_json::from_slice(&b).unwrap_or(Value::Null);
+                files.insert(name, json!([b.len(), hex::encode(sha256(&b)), doc["signed"]["version"].as_u64().unwrap_or(0)]));
+            }
+        }
+    }
+    let read = |f: &str| -> Value { std::fs::read(meta_dir.join(f)).ok().and_then(|b| serde_json::from_slice(&b).ok()).unwrap_or(Value::Null) };
+    let entry = |m: &Value| json!([m["version"].as_u64().unwrap_or(0), m["length"].as_u64(), m["hashes"]["sha256"].as_str()]);
+    let ts = read("timestamp.json");
+    let sm = &ts["signed"]["meta"]["snapshot.json"];
+    let sv = sm["version"].as_u64().unwrap_or(0);
+    let snap = read(&if cs { format!("{sv}.snapshot.json") } else { "snapshot.json".to_string() });
+    let mut smeta = serde_json::Map::new();
+    if let Some(metas) = snap["signed"]["meta"].as_object() { for (k, m) in metas { smeta.insert(k.clone(), entry(m)); } }
+    json!({"files": files, "snapshot_meta": smeta, "timestamp_meta": entry(sm),
+        "timestamp_meta_keys": ts["signed"]["meta"].as_object().map(|o| o.keys().cloned().collect::<Vec<_>>())})
+}
+
 /// the percent-encoding tough applies to role names in file names (observed through its own API is not
 /// possible: `encode_filename` is private; this is the documented set)
 fn tough_encode(name: &str) -> String {
@@ -363,6 +388,7 @@ async fn main() {
         let input_json = json!({"cs": cs, "names": names, "role_names": role_names, "top_targets": top_targets, "tgt_keys": tgt_keys, "thr_t": thr_t,
             "roles": intended_roles, "update": update.map(|(ri, k)| json!({"role": ri, "kind": format!("{k:?}")})), "owner_short": owner_short,
             "missing_field": missing_field, "versions": versions, "link": link,
+            "role_file_stems": role_names.iter().map(|n| tough_encode(n)).collect::<Vec<_>>(),
             "needs_escape": names.iter().map(|n| url::Url::parse("file:///t/").unwrap().join(n).map(|u| u.path() != format!("/t/{n}")).unwrap_or(true)).collect::<Vec<_>>(),
             "key_ids": (12..20).map(|i| json!([i, pool.all()[i].id])).collect::<Vec<_>>(),
             "lengths": contents.iter().map(|c| c.len()).collect::<Vec<_>>(),
@@ -375,6 +401,7 @@ async fn main() {
             let tdir = meta_dir.parent().unwrap().join("targets");
             std::fs::create_dir_all(&tdir).unwrap();
             imp["describes"] = meta_describes(&meta_dir, cs);
+            imp["listing"] = listing(&meta_dir, cs);
             let murl = url::Url::from_directory_path(&meta_dir).unwrap();
             let turl = url::Url::from_directory_path(&tdir).unwrap();
             match tough::RepositoryLoader::new(&root_bytes, murl, turl).load().await {
